@@ -5,6 +5,7 @@ import (
 	"errors"
 	"fmt"
 	"io"
+	"mosn.io/mosn/pkg/metrics"
 	"net"
 	"net/http"
 	"os"
@@ -59,22 +60,25 @@ type obs struct {
 
 // result is everything observed for one execution of a scenario.
 type result struct {
-	Token        string    `json:"token"`
-	T0           time.Time `json:"-"`
-	Resp         []obs     `json:"responses"`
-	ConnEnd      string    `json:"conn_end,omitempty"` // how the client connection ended while we were reading ("" = still open)
-	ConnEndUs    int64     `json:"conn_end_us,omitempty"`
-	Leftover     int       `json:"leftover_bytes,omitempty"` // bytes received that do not form a complete response
-	Arrivals     []arrival `json:"arrivals"`
-	Disconnected bool      `json:"disconnected,omitempty"`
-	DisconnUs    int64     `json:"disconnect_us,omitempty"`
-	Probe        string    `json:"probe,omitempty"`    // ok | skipped | silent | error:<..> | stale:<..>
-	Liveness     string    `json:"liveness,omitempty"` // when the request stayed silent: did a fresh exchange through the same proxy work?
-	SilentUntil  int64     `json:"silent_until_us,omitempty"`
-	RstUs        []int64   `json:"rst_host_accepts_us,omitempty"` // when accept+RST hosts received (and reset) a connection
-	MaxStallUs   int64     `json:"max_sched_delay_us"`            // largest scheduling delay of the test process itself while the scenario ran
-	StallAtGT    bool      `json:"stalled_across_global_timeout,omitempty"`
-	Infra        string    `json:"infra,omitempty"`
+	Token          string    `json:"token"`
+	T0             time.Time `json:"-"`
+	Resp           []obs     `json:"responses"`
+	ConnEnd        string    `json:"conn_end,omitempty"` // how the client connection ended while we were reading ("" = still open)
+	ConnEndUs      int64     `json:"conn_end_us,omitempty"`
+	Leftover       int       `json:"leftover_bytes,omitempty"` // bytes received that do not form a complete response
+	Arrivals       []arrival `json:"arrivals"`
+	Disconnected   bool      `json:"disconnected,omitempty"`
+	DisconnUs      int64     `json:"disconnect_us,omitempty"`
+	Probe          string    `json:"probe,omitempty"`                  // ok | skipped | silent | error:<..> | stale:<..>
+	ActiveAtEnd    int64     `json:"requests_active_at_end,omitempty"` // listener gauge downstream_request_active when every request has had its outcome
+	ActiveAfterUs  int64     `json:"requests_active_read_at_us,omitempty"`
+	ActiveLiveness string    `json:"requests_active_liveness,omitempty"` // outcome of a fresh exchange made while the gauge stayed up
+	Liveness       string    `json:"liveness,omitempty"`                 // when the request stayed silent: did a fresh exchange through the same proxy work?
+	SilentUntil    int64     `json:"silent_until_us,omitempty"`
+	RstUs          []int64   `json:"rst_host_accepts_us,omitempty"` // when accept+RST hosts received (and reset) a connection
+	MaxStallUs     int64     `json:"max_sched_delay_us"`            // largest scheduling delay of the test process itself while the scenario ran
+	StallAtGT      bool      `json:"stalled_across_global_timeout,omitempty"`
+	Infra          string    `json:"infra,omitempty"`
 }
 
 type run struct {
@@ -709,7 +713,14 @@ func runScenario(sc *Scenario) (res *result) {
 		}
 		u, err := newUpHost(ip, func(conn int, c net.Conn) {
 			switch {
-			case kind == "rst":
+			case kind == "rst", kind == "rst-late":
+				if kind == "rst-late" {
+					// the connection lives just long enough to be taken for established: the pool has chosen it when it dies
+					select {
+					case <-time.After(time.Duration(sc.RstLateUs) * time.Microsecond):
+					case <-r.done:
+					}
+				}
 				r.mu.Lock()
 				r.rstAt = append(r.rstAt, time.Now())
 				r.mu.Unlock()
@@ -740,6 +751,9 @@ func runScenario(sc *Scenario) (res *result) {
 			rs[1].Match = v2.RouterMatch{Headers: []v2.HeaderMatcher{{Name: "service", Value: "some.other.service"}}}
 			return rs
 		}
+	}
+	if sc.FilterDelayUs > 0 {
+		opts.StreamFilters = append(opts.StreamFilters, v2.Filter{Type: delayFilterType, Config: map[string]interface{}{"delay_us": sc.FilterDelayUs}})
 	}
 	var err error
 	for try := 0; ; try++ {
@@ -878,8 +892,15 @@ func runScenario(sc *Scenario) (res *result) {
 		if end != "" {
 			res.ConnEnd, res.ConnEndUs, res.Leftover = end, rel(endAt), left
 		}
+		// every request of this listener has had its outcome by now (the global timeout is over, the follow-up was
+		// answered): none may still be active in the proxy. Measured BEFORE the client connection is closed, because
+		// closing it is what finally sweeps an abandoned stream away.
+		r.activeAtEnd(cs.Name, t0, res)
 		cl.close(true)
 		closed = true
+	} else {
+		// the client went away itself: its request ends with that
+		r.activeAtEnd(cs.Name, t0, res)
 	}
 	cl.mu.Lock()
 	for _, o := range cl.resp[min(base, len(cl.resp)):] {
@@ -902,6 +923,23 @@ func runScenario(sc *Scenario) (res *result) {
 	}
 	r.mu.Unlock()
 	return res
+}
+
+// activeAtEnd reads the listener's downstream_request_active gauge, giving the clean-up of a just finished request up
+// to a second to show (it runs after the reply has been written). A gauge that stays up is read again after a fresh
+// exchange through the same MOSN process was answered: a request that is still counted then, long after its outcome
+// and with the process demonstrably serving, is stuck - that does not depend on any interleaving any more.
+func (r *run) activeAtEnd(caseName string, t0 time.Time, res *result) {
+	g := metrics.NewListenerStats(caseName + "_listener").Counter(metrics.DownstreamRequestActive)
+	end := time.Now().Add(time.Second)
+	for g.Count() > 0 && time.Now().Before(end) {
+		time.Sleep(time.Millisecond)
+	}
+	if g.Count() > 0 {
+		res.ActiveLiveness = r.liveness("")
+		time.Sleep(100 * time.Millisecond)
+	}
+	res.ActiveAtEnd, res.ActiveAfterUs = g.Count(), time.Since(t0).Microseconds()
 }
 
 func min(a, b int) int {
